@@ -332,7 +332,12 @@ def documents(r, np, atoms, levels, exhaustive_bits=12, sample=200, max_docs=600
     """atoms: {key: level or None}.  Yields documents."""
     shapes = doc_shapes(np, sorted(levels))
     if len(shapes) > 60:
-        shapes = r.sample(shapes, 60)
+        # keep the extremes (no object at all; `width` objects at EVERY nested level, the shape on which "the
+        # same object" and "some other object" can be told apart everywhere) and sample the rest
+        by_size = sorted(range(len(shapes)), key=lambda i: len(slots(shapes[i])))
+        keep = {by_size[0], by_size[1], by_size[-1], by_size[-2]}
+        rest = [i for i in range(len(shapes)) if i not in keep]
+        shapes = [shapes[i] for i in sorted(keep)] + [shapes[i] for i in r.sample(rest, 56)]
     budget = max(50, max_docs // max(1, len(shapes)))
     for shape in shapes:
         sl = slots(shape)
@@ -500,15 +505,35 @@ def correspond(model_ok, res):
     r = lib.rng("C05")
     rdoc = lib.rng("C05-docs")
     n = 120 if lib.tier() == "quick" else 1200
-    sessions = witnesses(T, parser) + E.builder_sessions(r, T, n, odd_share=0.2)
-    stats = {"judged": 0, "translated": 0, "refused": 0, "documents": 0, "known": {}, "unjudged": 0}
+    sessions = witnesses(T, parser) + E.nested_vocab_sessions(r, T, n // 2) + \
+        E.builder_sessions(r, T, n, odd_share=0.2)
+    history = {}          # session index -> descriptions of the trees the session's builder has translated
+    stats = {"judged": 0, "translated": 0, "refused": 0, "documents": 0, "known": {}, "unjudged": 0,
+             "history_dependent": 0, "max_objects_per_level": 2}
     sem_cases, sem_payloads = [], []
 
     def oracle(cfg, tree, outcome, info):
         if not (E.supported(T, tree, strict=True) and wf_config(cfg) and sem_config(cfg)):
             stats["unjudged"] += 1
+            history.setdefault(info["session"], []).append(info["desc"])
             return []
-        payload = {"config": repr(cfg), "tree": info["desc"]}
+        before = list(history.setdefault(info["session"], []))
+        history[info["session"]].append(info["desc"])
+        payload = {"config": repr(cfg), "tree": info["desc"], "earlier_calls_on_this_builder": before[-12:]}
+        out = []
+        # a builder that has translated other trees must return what a fresh builder returns (the model is a
+        # pure function of configuration and tree; the property quantifies over every call)
+        if outcome != info["fresh"]:
+            stats["history_dependent"] = stats.get("history_dependent", 0) + 1
+            out.append((dict(payload, why="a used builder and a fresh builder translate the tree differently",
+                             used_builder=repr(outcome)[:1200], fresh_builder=repr(info["fresh"])[:1200]), None))
+        if info["again"] is not None and info["again"][0] != info["again"][1]:
+            out.append((dict(payload, why="the first tree of the session is translated differently when it is "
+                                          "translated again by the same builder at the end",
+                             first=repr(info["again"][0])[:1200], again=repr(info["again"][1])[:1200]), None))
+        return out + judge(cfg, tree, outcome, info, payload)
+
+    def judge(cfg, tree, outcome, info, payload):
         if odd_field(T, tree):
             # F18: fields '' / '.x' are taken for fields under the nested path '' that an empty nested_fields
             # specification flattens to; such trees are not judged otherwise
@@ -551,7 +576,11 @@ def correspond(model_ok, res):
                       document=doc_repr(d), query_matches=x, tree_denotes=y), fid)]
 
     E.run_sessions("C05", res, model_ok, sessions, T, oracle)
-    res.rule = ("sessions of builder calls: fixed witnesses of the known findings and nested corpus, parsed corpus "
+    res.rule = ("sessions of builder calls (ONE builder per session, compared with a fresh builder on every call): "
+                "nested vocabulary sessions (nesting in nesting author>book>format, the same child names under "
+                "author / publisher / the root, in four spellings; chains, dotted names, groups whose operands are "
+                "all deeper-nested fields; corpus in written and shuffled order, random trees); "
+                "fixed witnesses of the known findings and nested corpus, parsed corpus "
                 "x fixed configurations, random supported trees (grammar shapes) and odd trees x random "
                 "configurations; the equivalence oracle judges supported trees in grammar shapes under well-formed "
                 "configurations on all documents with <= 2 objects per nested path (all truth assignments up to "
